@@ -49,12 +49,13 @@ def gen(ctx, num, depth):
     return behs
 
 
-def run(ctx, prefixes):
+def run(ctx, prefixes, mc=True):
     """model check + replay; failures whose signature starts with one of `prefixes` count for the calling check."""
     q = ctx.quick()
-    r = vlib.tlc(ctx, SPEC, "SharedInformers", "MC.cfg", timeout=3000, expect_violation=False, workers=12,
-                 consts={"MaxStarts": "2"} if q else None)
-    ctx.log("TLC SharedInformers/MC (2 monitors over 2 factory indices): %d generated / %d distinct states, %.0fs" % (r["generated"], r["distinct"], r["wall_s"]))
+    if mc:  # the exhaustive run belongs to C02's check; C01 reuses the behaviours and the harness only
+        r = vlib.tlc(ctx, SPEC, "SharedInformers", "MC.cfg", timeout=3000, expect_violation=False, workers=12,
+                     consts={"MaxStarts": "2"} if q else None)
+        ctx.log("TLC SharedInformers/MC (2 monitors over 2 factory indices): %d generated / %d distinct states, %.0fs" % (r["generated"], r["distinct"], r["wall_s"]))
     binary = vlib.go_build(ctx, "shared")
     behs = gen(ctx, ctx.pick(200, 2400), 50)
     cases = [{"steps": b} for b in behs]
